@@ -91,7 +91,7 @@ fn main() {
             let mut case: Case = serde_json::from_str(&text).expect("parse case");
             prepare(&mut case);
             arena::CURRENT_RUN.store(0, std::sync::atomic::Ordering::Relaxed);
-            let out = exec::run_case(&case, false);
+            let out = exec::run_case(&case, case.free_run);
             println!("OUT {}", serde_json::to_string(&out).unwrap());
         }
         "replay" => std::process::exit(minimise::replay(a.get("_0").expect("replay file"))),
